@@ -9,14 +9,14 @@ CONSTANTS
   HARD = 1440
   SOFTEP = 2
   MEM = 6
-  DTs = {100}
-  CUs = {1, 8}
+  DTs = {100, 1500}
+  CUs = {1, 8, 10}
   Ep0 = 4
   T0 = 10000
   A0 = 0
   FixedServ = FALSE
   MaxEp = 7
-  MaxPay = 3
+  MaxPay = 2
   MaxOps = 0
   GenHist = FALSE
 INIT Init
